@@ -178,6 +178,7 @@ def run_periodic(case: dict) -> Tuple[List[str], List[str]]:
                     problems.append(f"constructor draws {d.calls} != {want}")
         problems += d.problems
         dead = agent is None
+        drawn = False            # `start_node` is a cached property: random.choice is called ONCE per agent, in the first call that acts
         for t, (dd, k) in enumerate(case["steps"]):
             if dead:
                 out.append("bad-op" if agent is None else f"raised {agent.next_execution_timestep} {agent.num_executions}")
@@ -199,6 +200,12 @@ def run_periodic(case: dict) -> Tuple[List[str], List[str]]:
             else:
                 o = f"other:{act}:{par}"
             out.append(f"{o} {agent.next_execution_timestep} {agent.num_executions}")
+            n_choice = sum(1 for c in d.calls if c[0] == "choice")
+            if n_choice and (drawn or n_choice > 1 or not o.startswith("exec")):
+                problems.append(f"step {t}: start node drawn again / outside the first acting call ({n_choice} random.choice calls, drawn before: {drawn}, answer {o.split()[0]})")
+            drawn = drawn or n_choice > 0
+            if o.startswith("exec") and not drawn:
+                problems.append(f"step {t}: the agent acts without ever having drawn its start node in get_action")
             problems += d.problems
     return out, problems
 
